@@ -16,5 +16,5 @@ find "$REPO_DIR/src" "$REPO_DIR/clvm-fuzzing/src" "$REPO_DIR/wheel/src" -name "*
 rc=0
 for p in "$@"; do
   echo "=== $p against $REPO_DIR"
-  VERIF_REPO=$M/repo VERIF_HARNESS=$M/harness VERIF_WORK=$M/work VERIF_OUT=$M/out /verif/check.py $p --tier quick 2>&1 | grep -E "VIOLATION|KNOWN-FINDING|TOOL-ERROR|quick:|DRIFT" | cut -c1-600 | head -12
+  VERIF_REPO=$M/repo VERIF_HARNESS=$M/harness VERIF_WORK=$M/work VERIF_OUT=$M/out /verif/check.py $p --tier quick 2>&1 | grep -E "VIOLATION|KNOWN-FINDING|TOOL-ERROR|quick:|DRIFT" | cut -c1-600 | (head -8; tail -1)
 done
